@@ -128,6 +128,11 @@ def render(lay, idx, moff=0):
     def indent(text, n):
         return "\n".join((" " * n + ln) if ln.strip() else ln for ln in text.split("\n"))
     w = lay["wrap"]
+    if w == "defline":
+        if "\n" not in stmt and lay["kind"] == "lambda" and not lay["pre"]:
+            # the whole function on one physical line: a def keyword precedes the lambda on the lambda's own line
+            return f"def q_{idx}(ds): return {expr}\n", defs, want
+        w = "fn"
     if w in ("fn", "comp", "cond"):
         src = f"def q_{idx}(ds):\n{indent(stmt, 4)}\n    return q\n"
     elif w == "if":
